@@ -48,18 +48,18 @@ pub(crate) fn parse_directive(jsx_attr: &JSXAttr, is_component: bool) -> Directi
                 .trim_start_matches('-')
                 .split('_');
             (
-                splitted.next().unwrap_or(&*ident.sym).to_ascii_lowercase(),
-                splitted.next(),
+                // every `_suffix` is a modifier; only `v-name:arg` carries an argument
+                normalize_directive_name(splitted.next().unwrap_or(&*ident.sym)),
+                None,
                 splitted,
             )
         }
         JSXAttrName::JSXNamespacedName(JSXNamespacedName { ns, name, .. }) => {
             let mut splitted = name.sym.split('_');
             (
-                ns.sym
-                    .trim_start_matches('v')
-                    .trim_start_matches('-')
-                    .to_ascii_lowercase(),
+                normalize_directive_name(
+                    ns.sym.trim_start_matches('v').trim_start_matches('-'),
+                ),
                 Some(splitted.next().unwrap_or(&*name.sym)),
                 splitted,
             )
@@ -141,6 +141,15 @@ pub(crate) fn parse_directive(jsx_attr: &JSXAttr, is_component: bool) -> Directi
         modifiers: modifiers.and_then(|modifiers| transform_modifiers(modifiers, false)),
         value,
     })
+}
+
+/// `vFooBar` is the directive `fooBar`: only the first letter is lower-cased.
+fn normalize_directive_name(name: &str) -> String {
+    let mut chars = name.chars();
+    match chars.next() {
+        Some(first) => first.to_ascii_lowercase().to_string() + chars.as_str(),
+        None => String::new(),
+    }
 }
 
 fn parse_modifiers(exprs: &[Option<ExprOrSpread>]) -> BTreeSet<Atom> {
